@@ -44,9 +44,16 @@ LEVEL_NOTE = "trusted: System.M / E_pot; the harness's energy bookkeeping"
 @st.composite
 def _case(draw):
     mech = draw(dynbuild.mechanism(closed_loops=False, conservative=True, max_bodies=2))
+    if "spring" not in mech and mech["kind"] == "chain" and draw(st.integers(0, 3)):
+        # the few long runs of the quick tier: most chains carry a translational spring
+        mech["spring"] = {"k": draw(gen.f(5, 20)), "l_ref": draw(gen.f(0.5, 2.0)),
+                          "B2": draw(gen.vec3(-2, -0.7)) if draw(st.integers(0, 3)) else [0.0, 0.0, 0.0],
+                          "compliance": False, "B1_body": None, "d": 0.0}
     if "spring" in mech:
         mech["spring"]["k"] = min(mech["spring"]["k"], 20.0)
         mech["spring"]["d"] = 0.0
+        # force form and compliance form equally often (the few long runs of the quick tier must contain both)
+        mech["spring"]["compliance"] = draw(st.booleans())
     if "spring" in mech and mech["kind"] == "chain" and draw(st.integers(0, 3)) == 0:
         # spring and last joint attached at the same body-fixed point (the centre of mass)
         mech["spring"]["B2"] = [0.0, 0.0, 0.0]
@@ -84,6 +91,14 @@ def check(spec):
     def run(h, steps, state=None):
         system, _ = dynbuild.build_mechanism(mech, opts=opts)
         if state is not None:
+            if len(state) > 2:
+                # the revolute joints track their angle statefully (increments below a quarter turn, C25): lead the
+                # fresh system along the forward trajectory to the state from which the reversed run starts, so that
+                # a torsional spring sees the same accumulated angle as at the end of the forward run
+                for tk, qk, uk in state[2]:
+                    system.h(tk, qk, uk)
+                    if system.nla_c:
+                        system.la_c(tk, qk, uk)
             system.q0, system.u0 = state[0].copy(), state[1].copy()
             system.q_dot0 = system.q_dot(system.t0, system.q0, system.u0)
         sol, wrn = dynbuild.run("Rattle", system, system.t0 + (steps - spec.get("frac", 0.0)) * h, h, opts=opts)
@@ -154,7 +169,8 @@ def check(spec):
     # ---- reversibility --------------------------------------------------------------------------
     qN, uN = np.asarray(soll.q)[n], np.asarray(soll.u)[n]
     try:
-        sysr, solr = run(dt, n, state=(qN, -uN))
+        path = list(zip(np.asarray(soll.t)[: n + 1], np.asarray(soll.q)[: n + 1], np.asarray(soll.u)[: n + 1]))
+        sysr, solr = run(dt, n, state=(qN, -uN, path))
     except RuntimeError as e:
         if "not converged" in str(e):
             res.inconclusive += 1
